@@ -175,3 +175,48 @@ func VerifC11Outcomes() {
 		}
 	}
 }
+
+// VerifC11General: the symbolic program family of C05 under symbolic limits and a symbolic deadline.
+// Whatever the program, success means the complete fixpoint within the fact limit, and every error is
+// exactly one of the three limit sentinels (the family has no failing expressions or invalid rules).
+func VerifC11General() {
+	vForbidPanic("C11")
+	vForbidStranded("C11")
+	dur := 30 * time.Second
+	if vChoose("deadline", 2) == 1 {
+		vTimerMode(1)
+		dur = 5 * time.Millisecond
+		vLabel("deadline may pass at any moment")
+	} else {
+		vTimerMode(0)
+		vLabel("deadline never reached")
+	}
+	pg := c05Program()
+	maxFacts := vInt("maxFacts")
+	maxIter := vInt("maxIterations")
+	vAssume(vAnd(maxFacts >= 0, maxFacts <= 1000))
+	vAssume(vAnd(maxIter >= 0, maxIter <= 100))
+	w := NewWorld(WithMaxFacts(maxFacts), WithMaxIterations(maxIter), WithMaxDuration(dur))
+	for _, f := range pg.facts {
+		w.AddFact(f)
+	}
+	for _, cr := range pg.rules {
+		w.AddRule(cr.r)
+	}
+	err := w.Run(&SymbolTable{})
+	vCover("returned")
+	res := append([]Fact{}, (*w.Facts())...)
+	if err == nil {
+		vCover("success")
+		ground := c05Ground(res)
+		vAssert(ground, "C11.general.success-ground")
+		if ground {
+			vAssert(c05Closed(pg, res), "C11.general.success-is-fixpoint")
+		}
+		vAssert(len(res) <= maxFacts, "C11.general.success-within-fact-limit")
+		vAssert(maxIter >= 1, "C11.general.success-needs-an-iteration")
+	} else {
+		vCover("error")
+		vAssert(c11IsLimit(err) == 1, "C11.general.error-is-one-limit-sentinel")
+	}
+}
